@@ -815,6 +815,12 @@ func b09Scribble(fd *descriptorpb.FileDescriptorProto) {
 				m.Set(f, protoreflect.ValueOfInt32(int32(m.Get(f).Int())^0x55))
 			case f.Kind() == protoreflect.BoolKind:
 				m.Set(f, protoreflect.ValueOfBool(!m.Get(f).Bool()))
+			case f.Kind() == protoreflect.Int64Kind:
+				m.Set(f, protoreflect.ValueOfInt64(m.Get(f).Int()^0x55))
+			case f.Kind() == protoreflect.Uint64Kind:
+				m.Set(f, protoreflect.ValueOfUint64(m.Get(f).Uint()^0x55))
+			case f.Kind() == protoreflect.DoubleKind:
+				m.Set(f, protoreflect.ValueOfFloat64(m.Get(f).Float()+1))
 			case f.Kind() == protoreflect.EnumKind:
 				m.Clear(f)
 			}
@@ -855,9 +861,11 @@ func b09Ptr(m proto.Message) uintptr { return reflect.ValueOf(m).Pointer() }
 
 // cloneOp: clone ast|noast <ws>
 func (e *b09Engine) cloneOp(w []string) string {
-	if len(w) < 3 || (w[1] != "ast" && w[1] != "noast") {
+	if len(w) < 3 || (w[1] != "ast" && w[1] != "noast" && w[1] != "astsci" && w[1] != "noastsci") {
 		return "bad-op"
 	}
+	withSCI := strings.HasSuffix(w[1], "sci")
+	noAST := strings.HasPrefix(w[1], "noast")
 	files, ok := b09Decode(w[2:])
 	if !ok {
 		return "bad-op"
@@ -872,6 +880,22 @@ func (e *b09Engine) cloneOp(w []string) string {
 	for i, f := range ref.files {
 		byPath[ws.paths[i]] = f
 	}
+	// results that already carry source code info (as after a compilation with source info
+	// enabled, or a descriptor loaded with source info): take it from a standard compilation
+	var scis []*descriptorpb.SourceCodeInfo
+	if withSCI {
+		std := ws.compile(strings.Repeat("s", n), protocompile.SourceInfoStandard, nil, 0)
+		if std.err != nil {
+			return "rejected " + b09ErrClass(std.err)
+		}
+		for _, f := range std.files {
+			sci := protoutil.ProtoFromFileDescriptor(f).GetSourceCodeInfo()
+			if sci == nil {
+				return "rejected no-source-info"
+			}
+			scis = append(scis, sci)
+		}
+	}
 	var counts, obs []string
 	for i, p := range ws.paths {
 		mk := func() parser.Result {
@@ -883,7 +907,10 @@ func (e *b09Engine) cloneOp(w []string) string {
 			if err != nil {
 				return nil
 			}
-			if w[1] == "noast" {
+			if withSCI {
+				r.FileDescriptorProto().SourceCodeInfo = proto.Clone(scis[i]).(*descriptorpb.SourceCodeInfo)
+			}
+			if noAST {
 				return parser.ResultWithoutAST(proto.Clone(r.FileDescriptorProto()).(*descriptorpb.FileDescriptorProto))
 			}
 			return r
@@ -915,6 +942,11 @@ func (e *b09Engine) cloneOp(w []string) string {
 				}
 			}
 		}
+		// generic: any pointer to mutable memory (message, scalar box, slice backing array)
+		// reachable from both descriptor protos
+		var sharedAt []string
+		b09SharedMem(reflect.ValueOf(orig.FileDescriptorProto()), reflect.ValueOf(c.FileDescriptorProto()), "fd", &sharedAt)
+		shared += len(sharedAt)
 		astSame := c.AST() == orig.AST()
 		// experiment 1: scribble over the clone, the original must not change
 		b09Scribble(c.FileDescriptorProto())
@@ -960,10 +992,72 @@ func (e *b09Engine) cloneOp(w []string) string {
 			}
 			return "0"
 		}
-		obs = append(obs, fmt.Sprintf("f%d equal=%s shared=%d ident=%d/%d ast=%s indep=%s%s%s linked=%s missing=%s",
-			i, b(equal), shared, ident, len(eo), b(astSame), b(indep1), b(indep2), b(indep3), linked, b09Dash(strings.Join(ms, ","))))
+		at := "-"
+		if len(sharedAt) > 0 {
+			at = sharedAt[0]
+		}
+		obs = append(obs, fmt.Sprintf("f%d equal=%s shared=%d ident=%d/%d ast=%s indep=%s%s%s linked=%s missing=%s sharedat=%s",
+			i, b(equal), shared, ident, len(eo), b(astSame), b(indep1), b(indep2), b(indep3), linked, b09Dash(strings.Join(ms, ",")), at))
 	}
 	return "ok " + strings.Join(counts, " ") + " ~ " + strings.Join(obs, " ; ")
+}
+
+// b09SharedMem walks two generated proto structs in parallel (Go reflection, so that slice
+// backing arrays and scalar boxes are seen too) and records the path of every piece of mutable
+// memory that both reach: message pointers, pointers to scalars, and non-empty slices with the
+// same backing array (repeated fields, bytes, unknown fields).
+func b09SharedMem(a, b reflect.Value, path string, out *[]string) {
+	if !a.IsValid() || !b.IsValid() || a.Type() != b.Type() || len(*out) > 64 {
+		return
+	}
+	switch a.Kind() {
+	case reflect.Ptr:
+		if a.IsNil() || b.IsNil() {
+			return
+		}
+		if a.Pointer() == b.Pointer() {
+			*out = append(*out, path)
+			return // everything below is shared too
+		}
+		if a.Elem().Kind() == reflect.Struct {
+			b09SharedMem(a.Elem(), b.Elem(), path, out)
+		}
+	case reflect.Struct:
+		t := a.Type()
+		for i := 0; i < t.NumField(); i++ {
+			f := t.Field(i)
+			if f.Name == "state" || f.Name == "sizeCache" || f.Name == "extensionFields" {
+				continue // runtime bookkeeping of protoimpl
+			}
+			if !f.IsExported() && f.Name != "unknownFields" {
+				continue
+			}
+			fa, fb := a.Field(i), b.Field(i)
+			if !f.IsExported() {
+				// unknownFields []byte: compare the backing arrays without Interface()
+				if fa.Kind() == reflect.Slice && fa.Len() > 0 && fb.Len() > 0 && fa.Pointer() == fb.Pointer() {
+					*out = append(*out, path+"."+f.Name)
+				}
+				continue
+			}
+			b09SharedMem(fa, fb, path+"."+f.Name, out)
+		}
+	case reflect.Slice:
+		if a.Len() > 0 && b.Len() > 0 && a.Pointer() == b.Pointer() {
+			*out = append(*out, path+"[]")
+			return
+		}
+		ek := a.Type().Elem().Kind()
+		if ek == reflect.Ptr || ek == reflect.Struct || ek == reflect.Slice {
+			for i := 0; i < a.Len() && i < b.Len(); i++ {
+				b09SharedMem(a.Index(i), b.Index(i), fmt.Sprintf("%s[%d]", path, i), out)
+			}
+		}
+	case reflect.Interface:
+		if !a.IsNil() && !b.IsNil() {
+			b09SharedMem(a.Elem(), b.Elem(), path, out)
+		}
+	}
 }
 
 // ---------------------------------------------------------------- index completeness (static extraction)
@@ -1578,6 +1672,12 @@ func (e *b09Engine) Gen(r *Rand, tier string) [][]string {
 		}
 		for i, ws := range wss {
 			add("clone ast " + b09EncodeWS(ws))
+			if i%3 == 1 {
+				add("clone astsci " + b09EncodeWS(ws))
+			}
+			if i%5 == 2 {
+				add("clone noastsci " + b09EncodeWS(ws))
+			}
 			if i%5 == 0 {
 				add("clone noast " + b09EncodeWS(ws))
 			}
